@@ -20,7 +20,7 @@ def itp_options(rnd, lk):
         alg = rnd.choice(["0", "2", "3", "4", "5"] if lk == "QF_LRA" else ["0", "2", "3", "4", "5"])
         o.append([":interpolation-lra-algorithm", alg])
         if alg == "3" or rnd.random() < 0.2:
-            o.append([":interpolation-lra-factor", rnd.choice(['"0"', '"1/3"', '"1/2"', '"1"'])])
+            o.append([":interpolation-lra-factor", rnd.choice(['"0"', '"1/3"', '"1/2"', '"9/10"'])])
     if rnd.random() < 0.3:
         o.append([":proof-reduce", "true"])
         for k, vals in ((":proof-num-graph-traversals", ["1", "3"]), (":proof-num-global-iterations", ["1", "2"]),
@@ -35,10 +35,35 @@ def itp_options(rnd, lk):
 
 
 def generate(rnd, tier, kmin, kmax):
+    if rnd.random() < 0.2:
+        script = gen.gen_ksat(rnd, True, 6, 14)
+        script["options"] = [[":produce-interpolants", "true"]] + itp_options(rnd, "PROP")
+        if rnd.random() < 0.5 and not any(o[0] == ":proof-reduce" for o in script["options"]):
+            script["options"].append([":proof-reduce", "true"])
+        names = [c[2] for c in script["cmds"] if c[0] == "assert-named"]
+        for _ in range(rnd.randint(1, 2)):
+            ns = list(names)
+            rnd.shuffle(ns)
+            k = rnd.randint(kmin, min(kmax, len(ns)))
+            cuts = sorted(rnd.sample(range(1, len(ns)), k - 1))
+            groups = [ns[a:b] for a, b in zip([0] + cuts, cuts + [len(ns)])]
+            script["cmds"].append(["get-interpolants", [g[0] if len(g) == 1 else "(and %s)" % " ".join(g) for g in groups]])
+        return script
     script, sig, tg = gen.gen_script(rnd, tier, logic_keys=KEYS, tracking={"interpolants"}, queries=False, named=1.0,
                                      planted_p=0.8, engines=False, allow_nonincr=False, hist_p=0.45,
                                      hist_w=(0.5, 0.15, 0.13), big=rnd.random() < 0.5)
     script["options"] = [o for o in script["options"] if o[0] != ":global-declarations"] + itp_options(rnd, script["lk"])
+    # known finding 'formula asserted more than once' is excluded by construction in 90% of the scripts
+    if rnd.random() < 0.9:
+        seen = set()
+        kept = []
+        for c in script["cmds"]:
+            if c[0] in ("assert", "assert-named"):
+                if c[1] in seen or c[1] in ("false", "true"):
+                    continue
+                seen.add(c[1])
+            kept.append(c)
+        script["cmds"] = kept
     cmds = []
     for idx, c, active in list(gen.stack_walk(script)):
         cmds.append(c)
@@ -98,6 +123,8 @@ def check(case, ctx, path):
         return Result("inconclusive", None, classes + ["opensmt-timeout"])
     if r.out.crashed():
         return Result("inconclusive", None, classes + ["opensmt-crash"])
+    if gen.opt_get(script, ":produce-interpolants") != "true":
+        return Result("inconclusive", None, classes + ["interpolation-not-enabled"])
     real_only = script["logic"] == "QF_LRA"
     declared = set()
     for d in script["decls"]:
@@ -129,6 +156,11 @@ def check(case, ctx, path):
         if k != "get-interpolants" or state != "unsat":
             continue
         resp = r.resp.get(idx) or []
+        _names = {n for _, n in active if n}
+        _req = [x for g in c[1] for x in ([g] if not g.startswith("(and ") else sexpr.parse_one(g)[1:])]
+        if any(n not in _names for n in _req) or len(set(_req)) != len(_req):
+            classes.append("request-names-not-current")
+            continue
         if any(x.startswith("(error") for x in resp):
             return viol("request-rejected: %s" % resp[0][:80].replace(":", ";"), idx)
         if len(resp) != 1:
@@ -227,3 +259,107 @@ def check(case, ctx, path):
         if pops:
             classes.append("after-pop")
     return Result(status, nt_key, classes)
+
+
+# ---- signatures of known findings -------------------------------------------------------------------------------
+def sig_duplicate_formula(case, res):
+    """the same formula (syntactically or z3-equivalent, e.g. two assertions that both simplify to false) asserted more
+    than once in the script so far, under several names or again after a pop: the front end finds assertions by term
+    identity in a list that never shrinks, so the A/B split is computed for the wrong assertions"""
+    from .corecommon import z3_equiv
+    d = res.detail or {}
+    w = str(d.get("what", ""))
+    if not (w.startswith("A-does-not-imply") or w.startswith("interpolant-consistent-with-B") or
+            w.startswith("interpolant-mentions-non-shared") or w.startswith("request-rejected") or
+            w.startswith("path-property-fails")):
+        return False
+    idx = d.get("cmd_index", 0)
+    decls = osmt.ref_decls(case, idx)
+    earlier = [strip_names(c[1]) for c in case["cmds"][:idx] if c[0] in ("assert", "assert-named")]
+    if len(set(earlier)) < len(earlier):
+        return True
+    if len(earlier) > 24:
+        return False
+    for i in range(len(earlier)):
+        for j in range(i):
+            if z3_equiv(decls, earlier[i], earlier[j], 1000) is True:
+                return True
+    return False
+
+
+def sig_recheck(case, res):
+    from . import sigs
+    d = res.detail or {}
+    w = str(d.get("what", ""))
+    if not (w.startswith("A-does-not-imply") or w.startswith("interpolant-consistent-with-B") or
+            w.startswith("interpolant-mentions-non-shared") or w.startswith("path-property-fails")):
+        return False
+    return sigs.recheck_of_unsat_state(case, d.get("cmd_index", 0))
+
+
+def sig_false_assertion(case, res):
+    """a current assertion that is (equivalent to) false: the returned interpolant is 'true' / not an interpolant"""
+    from .corecommon import z3_equiv
+    d = res.detail or {}
+    w = str(d.get("what", ""))
+    if not (w.startswith("A-does-not-imply") or w.startswith("interpolant-consistent-with-B") or
+            w.startswith("path-property-fails")):
+        return False
+    idx = d.get("cmd_index", 0)
+    decls = osmt.ref_decls(case, idx)
+    for i, c, act in gen.stack_walk(case):
+        if i == idx:
+            return any(z3_equiv(decls, strip_names(t), "false") is True for t, _ in act)
+    return False
+
+
+def sig_conjunction_simplified(case, res):
+    """(and n1 n2 ...) is built as a term: when the conjunction simplifies (complementary members -> false, a member
+    that is itself a conjunction is flattened, a member true/false or repeated) it is no longer an 'and' over the
+    asserted terms and the request is rejected with 'Invalid arguments'"""
+    import z3
+    from .corecommon import z3_equiv
+    d = res.detail or {}
+    if not str(d.get("what", "")).startswith("request-rejected"):
+        return False
+    if not any("Invalid arguments" in x for x in (d.get("response") or [])):
+        return False
+    idx = d.get("cmd_index", 0)
+    decls = osmt.ref_decls(case, idx)
+    by_name = {}
+    for i, c, act in gen.stack_walk(case):
+        if i == idx:
+            by_name = {n: strip_names(t) for t, n in act if n}
+            groups = c[1]
+    for g in groups:
+        if not g.startswith("(and "):
+            continue
+        ms = [by_name.get(n) for n in sexpr.parse_one(g)[1:]]
+        if None in ms:
+            continue
+        if z3_equiv(decls, "(and %s)" % " ".join(ms), "false") is True:
+            return True
+        for m in ms:
+            try:
+                ctx = z3.Context()
+                fs = z3.parse_smt2_string("\n".join(decls) + "\n(assert %s)" % m, ctx=ctx)
+                t = z3.simplify(fs[0])
+                if z3.is_and(t) or z3.is_true(t) or z3.is_false(t) or (z3.is_not(t) and z3.is_or(t.arg(0))):
+                    return True
+            except Exception:
+                pass
+    return False
+
+
+def sig_divmod_symbol(case, res):
+    d = res.detail or {}
+    w = str(d.get("what", ""))
+    return w.startswith("interpolant-mentions-undeclared-symbol") and (".div_" in w or ".mod_" in w) and \
+        ("(div " in gen.render(case) or "(mod " in gen.render(case))
+
+
+SIGNATURES = {"interpolation-with-formula-asserted-more-than-once": sig_duplicate_formula,
+              "interpolant-mentions-div-mod-auxiliary": sig_divmod_symbol,
+              "interpolation-group-conjunction-simplifies": sig_conjunction_simplified,
+              "interpolation-with-an-assertion-equivalent-to-false": sig_false_assertion,
+              "interpolation-after-recheck-of-unsat-state": sig_recheck}
